@@ -59,8 +59,8 @@ QUEUED = {'nodes': [N(0, 'NN'), N(1, 'NN'), N(2, 'Z'), N(3, 'NN'), N(4, 'N2', [0
           'requested': [{'ref': 4, 'fresh': False}, {'ref': 3, 'fresh': False}], 'pre_cached': []}
 
 
-def with_lab(spec, backend, **kw):
-    return {**spec, 'lab': lab(backend, **kw), 'schedule': spec.get('schedule', [])}
+def with_lab(spec, backend, cof=True, **kw):
+    return {**spec, 'lab': {**lab(backend, **kw), 'continue_on_failure': cof}, 'schedule': spec.get('schedule', [])}
 
 
 def run_with_interrupts(spec: dict, ats, only=None, gated=False, rest_hook=None, sites=()):
@@ -324,7 +324,8 @@ def site_cases(tier: str) -> list[dict]:
     runs does not move it)."""
     cases = []
     q = tier == 'quick'
-    fixed = [with_lab(QUEUED, 'fork', mw=1)] if q else [with_lab(QUEUED, 'fork', mw=1), with_lab(QUEUED, 'fork', mw=2), with_lab(FIXED[0], 'fork', mw=2), with_lab(FIXED[1], 'fork', mw=3), with_lab(FIXED[2], 'fork', mw=1)]
+    # continue_on_failure=False on an all-succeeding DAG: a completion that gets lost around the interrupt surfaces as LabError('Task died')
+    fixed = [with_lab(QUEUED, 'fork', mw=1), with_lab(QUEUED, 'fork', mw=3, cof=False)] if q else [with_lab(QUEUED, 'fork', mw=3, cof=False), with_lab(QUEUED, 'fork', mw=1), with_lab(QUEUED, 'fork', mw=2), with_lab(FIXED[0], 'fork', mw=2), with_lab(FIXED[1], 'fork', mw=3), with_lab(FIXED[2], 'fork', mw=1)]
     for sp in fixed:
         obs, inj = run_with_interrupts(sp, (), only=PARENT_FILES)
         for (f, ln), c in sorted(inj.site_counts.items()):
